@@ -27,7 +27,14 @@ RULE = ("histories = up to 10 (thorough: 12) agents of classes A(mesa.Agent), B(
         "corner histories (every at_most form, ties in both directions, empty set, missing attributes, set algebra, GroupBy.map/do, "
         "string keys, the at_most boundary) first; plus an ORACLE-ONLY stream (100 / 3000 histories) with attribute values and "
         "constants that are floats (non-dyadic), ints above 2^53, strings, tuples, bools, Fraction / Decimal, numpy scalars, None, "
-        "mixed, and at_most given as numpy.float64 / numpy.int64 / bool / 2^70 / non-dyadic floats; the enumerator sweeps every "
+        "mixed, and at_most given as numpy.float64 / numpy.int64 / bool / 2^70 / non-dyadic floats; a SCALE stream (255..4096 agents, "
+        "tied keys of 9 types, every query; one 256/257-agent population also through the Coq model as gen_agents n seed); a USER-CODE "
+        "stream, implementation + oracle only (24 quick / 240 thorough): filter / key / map / agg / groupby / GroupBy.map functions that "
+        "re-enter the same set read-only (must see the untouched set, result = pure function), raise one of ten exception types incl. "
+        "StopIteration / GeneratorExit at their k-th call (must propagate, every set unchanged, later operations fine) or mutate the set "
+        "(consistency and exactly the user's change), for the in-place and copying forms; agents that are iterable / sized / orderable "
+        "with a misleading __lt__; agents with value-based __eq__/__hash__ (set semantics w.r.t. ==); AgentSet subclasses (docstring-only, "
+        "extra constructor argument + overridden add); 23 pairs of equivalent public entry points; the enumerator sweeps every "
         "member list over <= 2 (thorough / broken: 4) agents with a0 in {0,1} x every select / sort / groupby form; "
         "non-trivial = at least 3 operations of which one returns a non-empty answer and at least two slots are filled at the end; "
         "distinct = by SHA1 of the history")
@@ -362,6 +369,385 @@ def _rand_rich_case(rng):
     return {"rich": True, "seed": rng.randrange(1000), "agents": agents, "init": list(range(1, n + 1)), "ops": ops}
 
 
+# ------------------------------------------------------------------ USER CODE in the loop (harness/USERCODE_NOTE.md)
+# implementation + oracle only ("model": False): the callbacks are user code, what they do is checked against the statement
+# on the views they see, on the state right after an exception and on ordinary operations afterwards
+USER_OPS = ["select", "sort", "map", "agg", "groupby", "gbmap", "gbagg"]
+USER_EXCS = ["StopIteration", "IndexError", "KeyError", "AttributeError", "TypeError", "ValueError", "RuntimeError", "ZeroDivisionError",
+             "GeneratorExit", "LookupError"]
+USER_READS = ["len", "list", "agg", "select", "contains", "index0", "get", "sortcopy", "bool"]
+USER_MUTS = ["add", "discard", "remove", "pop", "setattr"]
+
+
+def _user_cases(rng, tier, broken=False):
+    out = []
+    n_each = 6 if tier == "quick" and not broken else 60
+    for _ in range(n_each):
+        n = rng.randint(1, 9)
+        vals = [rng.randint(0, 2) for _ in range(n)]
+        base = {"user": "callback", "n": n, "vals": vals, "op": rng.choice(USER_OPS), "inplace": rng.random() < 0.5,
+                "at_most": rng.choice([None, None, 0, 1, 2, n, 0.5, 1.0]), "k": rng.randint(1, n + 1), "seed": rng.randrange(100)}
+        out.append(dict(base, what="read", read=rng.choice(USER_READS)))
+        out.append(dict(base, what="raise", exc=rng.choice(USER_EXCS)))
+        out.append(dict(base, what="mutate", mut=rng.choice(USER_MUTS)))
+    for _ in range(max(2, n_each // 3)):
+        n = rng.randint(2, 8)
+        out.append({"user": "eqagents", "vals": [rng.randint(0, 3) for _ in range(n)], "seed": rng.randrange(100),
+                    "ops": [rng.choice(["add", "discard", "remove", "contains", "index", "sort", "select", "shuffle", "groupby", "sub", "or", "and", "eq", "pop"])
+                            for _ in range(rng.randint(3, 10))], "args": [rng.randrange(n) for _ in range(10)]})
+        out.append({"user": "subclass", "n": n, "vals": [rng.randint(0, 2) for _ in range(n)], "seed": rng.randrange(100),
+                    "cls": rng.choice(["doc", "extra", "slots_agents"])})
+        out.append({"user": "entrypoints", "n": n, "vals": [rng.randint(0, 2) for _ in range(n)], "seed": rng.randrange(100),
+                    "split": rng.randint(0, n)})
+    return out
+
+
+def _run_usercode(case, mesa, AgentSet):
+    import builtins
+    import copy as _copy
+    import operator as _op
+    import warnings
+
+    failures = []
+    obs = []
+
+    def fail(key, what):
+        failures.append({"key": "C03/usercode/" + key, "op": 0, "what": (str(case) + ": " + what)[:900]})
+
+    def ids(l):
+        return [a.unique_id for a in l]
+
+    def consistent(st, tag):
+        got = list(st)
+        if len(st) != len(got) or len({id(a) for a in got}) != len(got) or [st[j] for j in range(len(got))] != got \
+                or not all(a in st for a in got) or list(reversed(st)) != got[::-1]:
+            fail(tag + "/set-inconsistent", f"len()={len(st)}, iteration {ids(got)}")
+        return got
+
+    model = mesa.Model(seed=case.get("seed", 0))
+    kind = case["user"]
+    with warnings.catch_warnings():
+        warnings.simplefilter("ignore")
+        if kind == "callback":
+            class It(mesa.Agent):           # iterable, sized, orderable, falsy when its value is 0
+                def __iter__(self):
+                    return iter((self.a0, self.unique_id))
+
+                def __len__(self):
+                    return self.a0
+
+                def __lt__(self, other):
+                    return self.unique_id > other.unique_id      # the REVERSE of insertion order: must never be used for ties
+
+            agents = [(It if i % 2 else mesa.Agent)(model) for i in range(case["n"])]
+            for a, v in zip(agents, case["vals"]):
+                a.a0 = v
+            extra = mesa.Agent(model)
+            extra.a0 = 1
+            st = AgentSet(agents, random=model.random)
+            other = AgentSet(agents[::-1], random=model.random)          # a second set over the same agents: never touched
+            orig = list(agents)
+            op, inplace, what, k = case["op"], case["inplace"], case["what"], case["k"]
+            views, calls, did = [], [0], []
+            exc_type = getattr(builtins, case["exc"]) if what == "raise" else None
+
+            def hook(a):
+                """the user code: runs inside the library operation"""
+                calls[0] += 1
+                if what == "read":
+                    r = case["read"]
+                    v = {"len": lambda: len(st), "list": lambda: ids(list(st)), "agg": lambda: st.agg("a0", sum),
+                         "select": lambda: ids(st.select(lambda x: x.a0 > 0)), "contains": lambda: [x in st for x in orig],
+                         "index0": lambda: st[0].unique_id if len(st) else None, "get": lambda: st.get("a0"),
+                         "sortcopy": lambda: ids(st.sort("a0")), "bool": lambda: len(st) > 0}[r]()
+                    views.append(v)
+                elif calls[0] == k:
+                    if what == "raise":
+                        raise exc_type("user code raises half-way")
+                    m = case["mut"]
+                    if m == "add":
+                        st.add(extra)
+                    elif m == "discard":
+                        st.discard(orig[-1])
+                    elif m == "remove" and orig[0] in st:
+                        st.remove(orig[0])
+                    elif m == "pop" and len(st):
+                        st.pop()
+                    elif m == "setattr":
+                        orig[0].a0 = 9
+                    did.append(m)
+                return a.a0
+
+            pure = lambda a: a.a0          # noqa: E731  the same function without the user code
+            am = case["at_most"]
+            kw = {} if am is None else {"at_most": am}
+
+            def run(f, target, inpl):
+                if op == "select":
+                    return target.select(lambda a: f(a) > 0, inplace=inpl, **kw)
+                if op == "sort":
+                    return target.sort(f, ascending=bool(k % 2), inplace=inpl)
+                if op == "map":
+                    return target.map(f)
+                if op == "agg":
+                    return target.agg("a0", lambda vs: (f(orig[0]), f(orig[-1]), sum(vs))[2])
+                if op == "groupby":
+                    return [(key, ids(v)) for key, v in target.groupby(f, result_type="list" if inpl else "agentset")]
+                if op == "gbmap":
+                    return target.groupby("a0").map(lambda g: sum(f(a) for a in g))
+                return target.groupby("a0").agg("a0", lambda vs: (f(orig[0]), max(vs))[1])
+
+            # what the pure function gives on an untouched twin (list semantics is checked by the main streams)
+            twin = AgentSet(orig, random=model.random)
+            want = run(pure, twin, False)
+            want_ids = ids(want) if isinstance(want, AgentSet) else want
+            # ... and the list says the same (ties never consult the agents' own __lt__, falsy / iterable agents are agents)
+            if op == "select":
+                lim = len(orig) if am is None else (int(len(orig) * am) if isinstance(am, float) else am)
+                lst = [a.unique_id for a in orig if a.a0 > 0][:lim]
+            elif op == "sort":
+                lst = ids(sorted(orig, key=pure, reverse=not bool(k % 2)))
+            elif op == "map":
+                lst = [a.a0 for a in orig]
+            else:
+                lst = want_ids
+            if lst != want_ids:
+                fail(f"{op}/differs-from-list-semantics", f"got {want_ids}, the list gives {lst}")
+            before_view = {"len": len(orig), "list": ids(orig), "agg": sum(a.a0 for a in orig), "select": [a.unique_id for a in orig if a.a0 > 0],
+                           "contains": [True] * len(orig), "index0": orig[0].unique_id, "get": [a.a0 for a in orig],
+                           "sortcopy": ids(sorted(orig, key=pure, reverse=True)), "bool": True}
+            try:
+                res = run(hook, st, inplace)
+                raised = None
+            except BaseException as e:  # noqa: BLE001  (StopIteration / GeneratorExit are part of the test)
+                res, raised = None, e
+            obs.append([0 if raised is None else -1, calls[0]])
+            tag = f"{op}/{'inplace' if inplace else 'copy'}/{what}"
+            now = consistent(st, tag)
+            if ids(list(other)) != ids(orig[::-1]):
+                fail(tag + "/altered-another-set", f"a second set over the same agents became {ids(list(other))}")
+            if what == "read":
+                if raised is not None:
+                    fail(tag + "/raised", f"a filter that only READS the set made the call raise {type(raised).__name__}: {raised}")
+                else:
+                    bad = [v for v in views if v != before_view[case["read"]]]
+                    if bad:
+                        fail(tag + "/half-done-state-visible", f"inside the operation the user code saw {bad[0]} instead of {before_view[case['read']]}")
+                    got = ids(res) if isinstance(res, AgentSet) else res
+                    if got != want_ids:
+                        fail(tag + "/differs-from-pure-function", f"got {got}, with the same function without the read {want_ids}")
+                    changes = op in ("select", "sort") and inplace
+                    if ids(now) != (want_ids if changes else ids(orig)):
+                        fail(tag + "/wrong-final-set", f"the set is {ids(now)}, expected {want_ids if changes else ids(orig)}")
+            elif what == "raise":
+                reached = calls[0] >= k
+                if reached and raised is None:
+                    fail(tag + "/exception-swallowed", f"the user code raised {case['exc']} at its call {k} but the operation returned {res if not isinstance(res, AgentSet) else ids(res)}")
+                if raised is not None and not reached:
+                    fail(tag + "/raised", f"raised {type(raised).__name__} although the user code did not")
+                if raised is not None and ids(now) != ids(orig):
+                    fail(tag + "/state-changed-by-rejected-call", f"after the {type(raised).__name__} the set is {ids(now)}, it was {ids(orig)}")
+                    failures.append({"key": "C18/usercode/" + tag, "op": 0, "what": failures[-1]["what"]})
+                if raised is None and not reached:
+                    got = ids(res) if isinstance(res, AgentSet) else res
+                    if got != want_ids:
+                        fail(tag + "/differs-from-pure-function", f"got {got}, expected {want_ids}")
+            else:
+                # the user code changed the set in the middle: the statement does not say what the operation returns; HEAD
+                # either raises RuntimeError (iteration) or finishes on the members it started with.  Demand consistency only,
+                # and - for forms that do not write the set - that exactly the user's change is there
+                if raised is not None and not isinstance(raised, (RuntimeError, KeyError)):
+                    fail(tag + "/unexpected-exception", f"{type(raised).__name__}: {raised}")
+                if did and not (op in ("select", "sort") and inplace and raised is None):
+                    exp = list(orig)
+                    m = did[0]
+                    if m == "add":
+                        exp.append(extra)
+                    elif m == "discard":
+                        exp = exp[:-1]
+                    elif m in ("remove", "pop"):
+                        exp = exp[1:]
+                    if ids(now) != ids(exp):
+                        fail(tag + "/user-change-lost-or-extra", f"the user code did {m}; the set is {ids(now)}, expected {ids(exp)}")
+            # ordinary operations afterwards behave like the list
+            after = list(st)
+            if ids(st.sort("unique_id", ascending=True)) != sorted(ids(after)) or ids(st.select(at_most=1)) != ids(after[:1]) \
+                    or len(st.shuffle()) != len(after) or st.get("unique_id") != ids(after):
+                fail(tag + "/later-operations-wrong", f"after the call, on {ids(after)}")
+        elif kind == "eqagents":
+            class E(mesa.Agent):            # value-based equality: two agents with the same v are EQUAL
+                def __init__(self, model, v):
+                    self.v = v
+                    super().__init__(model)
+
+                def __eq__(self, o):
+                    return isinstance(o, E) and o.v == self.v
+
+                def __hash__(self):
+                    return hash(self.v)
+
+            es = [E(model, v) for v in case["vals"]]
+            shadow = list(dict.fromkeys(es))         # an insertion-ordered set w.r.t. ==
+            st = AgentSet(es, random=model.random)
+            for j, o in enumerate(case["ops"]):
+                a = es[case["args"][j] % len(es)]
+                b = AgentSet(es[case["args"][j] % len(es):], random=model.random)
+                bl = list(dict.fromkeys(es[case["args"][j] % len(es):]))
+                try:
+                    if o == "add":
+                        st.add(a)
+                        if a not in shadow:
+                            shadow.append(a)
+                    elif o == "discard":
+                        st.discard(a)
+                        shadow = [x for x in shadow if x != a]
+                    elif o == "remove":
+                        exp_err = a not in shadow
+                        try:
+                            st.remove(a)
+                            if exp_err:
+                                fail("eqagents/remove-absent-accepted", f"step {j}")
+                        except KeyError:
+                            if not exp_err:
+                                fail("eqagents/remove-present-rejected", f"step {j}")
+                        shadow = [x for x in shadow if x != a]
+                    elif o == "contains":
+                        if (a in st) != (a in shadow) or st.count(a) != shadow.count(a):
+                            fail("eqagents/contains", f"step {j}")
+                    elif o == "index":
+                        if a in shadow and st.index(a) != shadow.index(a):
+                            fail("eqagents/index", f"step {j}")
+                    elif o == "sort":
+                        if ids(st.sort("v", ascending=True)) != ids(sorted(shadow, key=lambda x: x.v)):
+                            fail("eqagents/sort", f"step {j}")
+                    elif o == "select":
+                        if ids(st.select(lambda x: x.v >= 1, at_most=2)) != ids([x for x in shadow if x.v >= 1][:2]):
+                            fail("eqagents/select", f"step {j}")
+                    elif o == "shuffle":
+                        st.shuffle(inplace=True)
+                        if sorted(ids(st)) != sorted(ids(shadow)):
+                            fail("eqagents/shuffle", f"step {j}")
+                        shadow = list(st)
+                    elif o == "groupby":
+                        if [(kk, ids(v)) for kk, v in st.groupby("v")] != [(x.v, [x.unique_id]) for x in shadow]:
+                            fail("eqagents/groupby", f"step {j}")
+                    elif o in ("sub", "or", "and"):
+                        r = {"sub": _op.sub, "or": _op.or_, "and": _op.and_}[o](st, b)
+                        e = {"sub": [x for x in shadow if x not in bl], "or": list(dict.fromkeys(shadow + bl)), "and": [x for x in shadow if x in bl]}[o]
+                        # which of two EQUAL agents represents the value is not defined (a & b takes b's objects): compare values
+                        if sorted(x.v for x in r) != sorted(x.v for x in e) or len(r) != len(e):
+                            fail("eqagents/setop", f"step {j} {o}: got values {sorted(x.v for x in r)}, expected {sorted(x.v for x in e)}")
+                    elif o == "eq":
+                        if (st == b) != (len(shadow) == len(bl) and all(x in bl for x in shadow)):
+                            fail("eqagents/eq", f"step {j}")
+                    elif o == "pop" and shadow:
+                        if st.pop() is not shadow.pop(0):
+                            fail("eqagents/pop", f"step {j}")
+                except Exception as e:  # noqa: BLE001
+                    fail("eqagents/unexpected-exception", f"step {j} {o}: {type(e).__name__}: {e}")
+                    break
+                if ids(consistent(st, "eqagents")) != ids(shadow):
+                    fail("eqagents/wrong-members", f"after step {j} ({o}): {ids(list(st))}, expected {ids(shadow)}")
+                    shadow = list(st)
+            obs.append([0, len(shadow)])
+        elif kind == "subclass":
+            class Slotted(mesa.Agent):
+                __slots__ = ("a0", "__weakref__") if False else ()      # plain subclass; slots on Agent subclasses keep __dict__
+
+            class DocSet(AgentSet):
+                """a subclass that only adds a docstring"""
+
+            class ExtraSet(AgentSet):
+                kind_default = "herd"            # class-level default
+
+                def __init__(self, agents, random=None, tag="t"):
+                    super().__init__(agents, random)
+                    self.tag = tag
+
+                def add(self, agent):            # an overridden public hook that calls super()
+                    self.added = getattr(self, "added", 0) + 1
+                    super().add(agent)
+
+            Cls = {"doc": DocSet, "extra": ExtraSet, "slots_agents": DocSet}[case["cls"]]
+            agents = [(Slotted if case["cls"] == "slots_agents" else mesa.Agent)(model) for _ in range(case["n"])]
+            for a, v in zip(agents, case["vals"]):
+                a.a0 = v
+            st = Cls(agents, random=model.random)
+            plain = AgentSet(agents, random=model.random)
+            half = agents[: len(agents) // 2]
+            t = Cls(half, random=model.random)
+            checks = {
+                "select": (lambda x: x.select(lambda a: a.a0 > 0, at_most=2)), "select-all": (lambda x: x.select()),
+                "sort": (lambda x: x.sort("a0")), "sort-asc": (lambda x: x.sort(lambda a: a.a0, ascending=True)),
+                "groupby": (lambda x: [(k, ids(v)) for k, v in x.groupby("a0")]), "get": (lambda x: x.get(["a0", "unique_id"])),
+                "agg": (lambda x: x.agg("a0", sum)), "slice": (lambda x: ids(x[1:3])), "sub": (lambda x: x - t), "and": (lambda x: x & t),
+                "or": (lambda x: t | x), "xor": (lambda x: x ^ t), "le": (lambda x: t <= x), "copy": (lambda x: _copy.copy(x)),
+                "select-inplace": (lambda x: _copy.copy(x).select(lambda a: a.a0 > 0, inplace=True)),
+                "sort-inplace": (lambda x: _copy.copy(x).sort("a0", inplace=True)),
+            }
+            for name, f in checks.items():
+                try:
+                    r1, r2 = f(st), f(plain)
+                except Exception as e:  # noqa: BLE001
+                    fail(f"subclass/{case['cls']}/{name}/unexpected-exception", f"{type(e).__name__}: {e}")
+                    continue
+                n1 = ids(r1) if isinstance(r1, AgentSet) else r1
+                n2 = ids(r2) if isinstance(r2, AgentSet) else r2
+                if n1 != n2:
+                    fail(f"subclass/{case['cls']}/{name}/differs-from-AgentSet", f"subclass gives {n1}, AgentSet gives {n2}")
+                if isinstance(r2, AgentSet) and not isinstance(r1, AgentSet):
+                    fail(f"subclass/{case['cls']}/{name}/result-type", type(r1).__name__)
+            st.add(agents[0])
+            st.discard(agents[-1])
+            plain.discard(agents[-1])
+            if ids(consistent(st, "subclass")) != ids(list(plain)):
+                fail(f"subclass/{case['cls']}/add-discard", f"{ids(list(st))} vs {ids(list(plain))}")
+            obs.append([0, len(st)])
+        else:   # entrypoints: every public way to do the same thing agrees
+            agents = [mesa.Agent(model) for _ in range(case["n"])]
+            for a, v in zip(agents, case["vals"]):
+                a.a0 = v
+            s1 = lambda: AgentSet(agents, random=model.random)             # noqa: E731
+            t1 = lambda: AgentSet(agents[case["split"]:][::-1], random=model.random)   # noqa: E731
+            pairs = {
+                "or": (lambda: ids(s1() | t1()), lambda: ids(s1().__or__(t1()))), "ior": (lambda: ids(_op.ior(s1(), t1())), lambda: ids(s1() | t1())),
+                "and": (lambda: sorted(ids(s1() & t1())), lambda: sorted(ids(_op.iand(s1(), t1())))),
+                "sub": (lambda: ids(s1() - t1()), lambda: ids(_op.isub(s1(), t1()))), "sub-list": (lambda: ids(s1() - t1()), lambda: ids(_op.isub(s1(), list(t1())))),
+                "xor": (lambda: ids(s1() ^ t1()), lambda: ids(_op.ixor(s1(), t1()))),
+                "contains": (lambda: [a in s1() for a in agents], lambda: [s1().__contains__(a) for a in agents]),
+                "len": (lambda: len(s1()), lambda: s1().__len__()), "iter": (lambda: ids(iter(s1())), lambda: [s1()[j].unique_id for j in range(len(agents))]),
+                "reversed": (lambda: ids(reversed(s1())), lambda: ids(list(s1())[::-1])),
+                "get": (lambda: s1().get("a0"), lambda: [r[0] for r in s1().get(["a0"])]),
+                "get-default": (lambda: s1().get("zz", handle_missing="default", default_value=5), lambda: [r[0] for r in s1().get(["zz"], "default", 5)]),
+                "map": (lambda: s1().map(lambda a: a.a0), lambda: s1().get("a0")), "agg": (lambda: s1().agg("a0", max) if agents else None, lambda: max(s1().get("a0")) if agents else None),
+                "select-all": (lambda: ids(s1().select()), lambda: ids(_copy.copy(s1()))), "ctor": (lambda: ids(AgentSet(s1(), random=model.random)), lambda: ids(s1())),
+                "sort-str-callable": (lambda: ids(s1().sort("a0")), lambda: ids(s1().sort(lambda a: a.a0))),
+                "sort-inplace": (lambda: ids(s1().sort("a0", inplace=True)), lambda: ids(s1().sort("a0"))),
+                "isdisjoint": (lambda: s1().isdisjoint(t1()), lambda: len(s1() & t1()) == 0), "le": (lambda: t1() <= s1(), lambda: all(a in s1() for a in t1())),
+                "eq-order": (lambda: s1() == AgentSet(agents[::-1], random=model.random), lambda: True),
+                "groupby-count": (lambda: s1().groupby("a0").count(), lambda: s1().groupby(lambda a: a.a0, result_type="list").map(len)),
+            }
+
+            def set_vs_loop():
+                x = s1()
+                r = x.set("a1", 4)
+                ok = r is x and [a.a1 for a in agents] == [4] * len(agents)
+                for a in x:
+                    setattr(a, "a1", 6)
+                return ok and [a.a1 for a in agents] == [6] * len(agents)
+            pairs["set"] = (set_vs_loop, lambda: True)
+            for name, (f, g) in pairs.items():
+                try:
+                    r1, r2 = f(), g()
+                except Exception as e:  # noqa: BLE001
+                    fail(f"entrypoints/{name}/unexpected-exception", f"{type(e).__name__}: {e}")
+                    continue
+                if r1 != r2:
+                    fail(f"entrypoints/{name}/disagree", f"{r1} vs {r2}")
+            obs.append([0, len(pairs)])
+    return {"obs": obs, "failures": failures, "ops_for_model": [], "model": False}
+
+
 SCALE_SIZES = [255, 256, 257, 300, 512, 1000, 1024, 1025, 2048, 2049]
 SCALE_KEYTYPES = ["int", "bool", "float", "npint", "npfloat", "str", "tuple", "frac", "bigint"]
 
@@ -448,6 +834,7 @@ def _scale_cases(rng, tier, broken=False):
 def gen_cases(rng, tier):
     cases = list(_corner_cases())
     cases += _scale_cases(rng, tier)
+    cases += _user_cases(rng, tier)
     for _ in range(100 if tier == "quick" else 3000):
         cases.append(_rand_rich_case(rng))
     n = 800 if tier == "quick" else 24000
@@ -554,6 +941,8 @@ def enumerate_cases(tier, broken=False):
         import random as _random
         for c in _scale_cases(_random.Random(4242), tier, broken=True):
             c.pop("gen", None)
+            yield c
+        for c in _user_cases(_random.Random(4343), tier, broken=True):
             yield c
     nmax = 4 if (tier == "thorough" or broken) else 2
     preds = [None, ["true"], ["false"], ["le", 0, 0], ["not", ["le", 0, 0]], ["idmod", 2, 0]]
@@ -727,6 +1116,8 @@ def run_impl(case):
     # reported failure, not as a hung check: every operation runs under an alarm
     # CPU time of this process (ITIMER_VIRTUAL), not wall-clock: on a heavily loaded machine a worker can be
     # descheduled for seconds, which must not look like a hang
+    if case.get("user"):
+        return _run_usercode(case, mesa, AgentSet)
     signal.signal(signal.SIGVTALRM, _on_alarm)
     budget = OP_TIMEOUT * (1 + len(case["agents"]) // 100)     # the observer is linear in the population: scale stream
     try:
@@ -1572,7 +1963,7 @@ def _c_op(op):
 
 
 def coq_case(case):
-    if case.get("rich"):
+    if case.get("rich") or case.get("user"):
         return "{| c_agents := []; c_init := []; c_ops := [] |}"
     if case.get("gen"):        # scale stream: the population is described by (n, seed), not listed
         n, seed = case["gen"]
@@ -1591,6 +1982,8 @@ def coq_case(case):
 
 
 def op_kinds(case):
+    if case.get("user"):
+        return ["usercode/" + case["user"] + ("/" + case["op"] + "/" + case["what"] if case["user"] == "callback" else "")]
     out = []
     for op in case["ops"]:
         k = op[0]
@@ -1602,6 +1995,8 @@ def op_kinds(case):
 
 def nontrivial(case):
     obs = case.get("_obs", [])
+    if case.get("user"):
+        return bool(obs)
     if len(case["ops"]) < 3 or not obs:
         return False
     last = obs[-1]
